@@ -47,6 +47,7 @@ REQUIRED_REACH = [
     "probe:fresh_interpreter_probe",
     "probe:history_failed_the_way_the_probe_fails",
     "probe:history_changed_working_directory",
+    "probe:history_of_hundreds_of_assemblies",
     "probe:history_other_rom_type",
     "probe:history_used_probe_path",
     "probe:history_assembled_probe_text_under_other_layout",
@@ -470,15 +471,33 @@ def interpreter_family() -> list[dict[str, Any]]:
     return out
 
 
+def long_history_family(tier: str) -> list[dict[str, Any]]:
+    """Hundreds of small assemblies (each scanning two files) before the probe: whatever counts, numbers or
+    tabulates files, tokens, scopes or programs per *process* crosses its small thresholds (256, 1000)."""
+    out: list[dict[str, Any]] = []
+    for n, probe_text, fails_by in ((300, "*=0x008000\nstart:\n    lda.w #0x1234\n    jmp.w nowhere_zq\n", "undefined_symbol"), (1100, "*=0x008000\nstart:\n    lda.w #0x1234\n    jsr.w start\n    .dw start\n", None)) + (((70000, "*=0x008000\nstart:\n    lda.b #1 %\n", "scanner_error"),) if tier == "thorough" else ()):
+        files: dict[str, bytes] = {"probe.s": probe_text.encode(), "tinc.s": b"nop\n"}
+        roles: dict[str, str] = {"probe.s": "source", "tinc.s": "include"}
+        ops: list[dict[str, Any]] = []
+        for i in range(n):
+            src = f"t{i % 50}.s"
+            if src not in files:
+                files[src] = f"*=0x{0x8000 + (i % 50) * 0x10:06x}\nt{i % 50}_l:\n    lda.b #{i % 50}\n.include 'tinc.s'\n{'    jmp.w missing_zq' if i % 7 == 3 else '    rts'}\n".encode()
+                roles[src] = "source"
+            ops.append({"op": "exec", "spec": {"entry": "string", "src": src, "rom": "low", "defines": []}, "knobs": {}, "faults": [], "kind": "tiny", "has_map": False, "pool": False, "mapping": "low", "insert_class": None})
+        out.append({"files": files, "roles": roles, "ops": ops, "probe_spec": {"entry": "string", "src": "probe.s", "rom": "low", "defines": []}, "probe_meta": {"negatives": [], "shared": None, "fails_by": fails_by}, "seed": 7000 + n, "fresh": False, "family": "long_history"})
+    return out
+
+
 def plan(tier: str) -> dict[str, Any]:
-    return {"fixed": interpreter_family(), "seeded": 3000 if tier == "quick" else 0, "chunk": 20, "wall_cap_s": 240, "minimise_s": 30}
+    return {"fixed": interpreter_family() + long_history_family(tier), "seeded": 3000 if tier == "quick" else 0, "chunk": 20, "wall_cap_s": 240, "minimise_s": 30}
 
 
 # ---------------------------------------------------------------------------
 
 
 def result_of(o: dict[str, Any], spec: dict[str, Any]) -> dict[str, Any]:
-    r: dict[str, Any] = {"kind": o["kind"], "ok": o["ok"], "ret": o.get("ret"), "exc": o.get("exc"), "blocks": o["blocks"], "labels": o["labels"]}
+    r: dict[str, Any] = {"kind": o["kind"], "ok": o["ok"], "ret": o.get("ret"), "exc": o.get("exc"), "blocks": o["blocks"], "labels": o["labels"], "reported": o.get("log_warn")}
     for key in ("out", "symfile"):
         if spec.get(key):
             r["file:" + key] = entries.get_out(o, spec[key])
@@ -568,6 +587,8 @@ def run_case(case: dict[str, Any], stats: Stats) -> list[Violation]:
         out.append(Violation("probe_result_depends_on_history", "after_vs_alone:" + fields, f"probe after the history differs from the probe alone: {explain_diff(r_after, r_alone)}", case, {"history_kinds": kinds}))
     elif r_repeat != r_after:
         out.append(Violation("probe_not_repeatable", "repeat", f"probe repeated immediately differs from its first run: {explain_diff(r_repeat, r_after)}", case, {"history_kinds": kinds}))
+    if case.get("family") == "long_history":
+        stats.bump("probe:history_of_hundreds_of_assemblies")
     if case.get("family") == "interpreter":
         stats.bump("probe:interpreter_family_probe")
         stats.state("interpreter", meta.get("fails_by"), pspec["entry"], r_alone["ok"])
